@@ -7,7 +7,7 @@ import itertools
 from ..core import terms as T
 from ..core import asthelp as H
 from ..core.interp import Interp, assume
-from ..core.progdb import AnalysisError
+from ..core.progdb import AnalysisError, walk_no_nested, lit
 from ..core.values import Frame, Obj, PyTuple, Ser, to_term
 from ..specs.merge import check_term
 
@@ -24,6 +24,39 @@ TD = "hta.trace_diff"
 SUMCOLS = ["cat", "name", "short_name", "counts", "total_duration", "cat_id", "name_id"]
 
 
+def _no_shared_results(db, chk, m, rule="C17.R7-results-not-shared"):
+    """two cooperating sites: (a) a method that hands out an object it keeps in a container on self (a memo) and (b) a consumer that modifies the result in place.
+    Either alone is harmless; together the second comparison on the same object sees what the first one did to the memoised frame."""
+    memo_methods = {}
+    for q, f in m.functions.items():
+        if "." not in q or m.enclosing_function(f) is not None:
+            continue
+        cls = q.split(".")[0]
+        kept = {t.value.attr for cq, g in m.functions.items() if cq.startswith(cls + ".") for n in ast.walk(g) if isinstance(n, (ast.Assign, ast.AugAssign))
+                for t in (n.targets if isinstance(n, ast.Assign) else [n.target]) if isinstance(t, ast.Subscript) and H.is_self_attr(t.value)}
+        if not kept:
+            continue
+        loc = {t.id: v for t, v, s_ in H.assignments(f, nested=False) if isinstance(t, ast.Name)}
+        for r in [n for n in walk_no_nested(f) if isinstance(n, ast.Return) and n.value is not None]:
+            v = loc.get(r.value.id, r.value) if isinstance(r.value, ast.Name) else r.value
+            src = v.value if isinstance(v, ast.Subscript) else (v.func.value if isinstance(v, ast.Call) and isinstance(v.func, ast.Attribute) and v.func.attr in ("get", "setdefault") else None)
+            if src is not None and H.is_self_attr(src) and src.attr in kept:
+                memo_methods[q.split(".")[-1]] = f"{q} returns self.{src.attr}[...] itself"
+    mutated = []
+    for q, f in m.functions.items():
+        binds = {t.id: v.func.attr for t, v, s_ in H.assignments(f, nested=False) if isinstance(t, ast.Name) and isinstance(v, ast.Call) and isinstance(v.func, ast.Attribute) and v.func.attr in memo_methods}
+        for n in walk_no_nested(f):
+            tg = (n.targets if isinstance(n, ast.Assign) else [n.target]) if isinstance(n, (ast.Assign, ast.AugAssign)) else []
+            for t in tg:
+                if isinstance(t, ast.Subscript) and isinstance(t.value, ast.Name) and t.value.id in binds:
+                    mutated.append(f"{q}: {ast.unparse(n)[:70]}  (the result of .{binds[t.value.id]}())")
+            if isinstance(n, ast.Call) and isinstance(n.func, ast.Attribute) and isinstance(n.func.value, ast.Name) and n.func.value.id in binds and any(k.arg == "inplace" and lit(k.value) is True for k in n.keywords):
+                mutated.append(f"{q}: {ast.unparse(n)[:70]}  (the result of .{binds[n.func.value.id]}())")
+    chk.ob(rule, "no memoised result is modified in place by its consumer (a method handing out the object it keeps on self + a caller that stores into it)", not (memo_methods and mutated), TD,
+           found={"memo": sorted(memo_methods.values()), "modified in place": mutated} if (memo_methods and mutated) else f"{len(memo_methods)} memo-returning method(s), {len(mutated)} in-place consumer(s) of them", accepted="a copy handed out, or no in-place modification",
+           why="after one short-name comparison the memoised summary carries the short names for good: every later long-name comparison of the same selection merges name variants and reports phantom additions / deletions", nontrivial=False)
+
+
 def run(db, chk) -> None:
     from ..specs.discipline import check_shared_trace_untouched
     check_shared_trace_untouched(db, chk, "C17.R-shared-trace")
@@ -31,6 +64,7 @@ def run(db, chk) -> None:
     check_stateless(db, chk, "C17.R-stateless", ['hta.trace_diff'])      # the result is a function of the arguments: no state kept between calls, caller's Trace untouched
     chk.floor("C17.R-stateless", 4)
     m = db.mod(TD)
+    _no_shared_results(db, chk, m)
     _summary(db, chk, m)
     _extract(db, chk, m)
     _defaults(db, chk, m)
